@@ -105,7 +105,7 @@ def layerOf (kk : KeyKind) (bf : Nat) (k : Nat) : Nat :=
   | .vk => k % 256
   | .u64 | .uint => uintLayer bf k
   | .i64 | .int => uintLayer bf (if k ≥ Codec.i64bias then k - Codec.i64bias else Codec.i64bias - k)
-  | .str | .bytes | .sk | .skc => uintLayer bf (crc64 (Codec.keyRaw kk k))
+  | .str | .strx | .bytes | .sk | .skc => uintLayer bf (crc64 (Codec.keyRaw kk k))
 
 inductive Fmt where
   | bin | json
